@@ -66,6 +66,46 @@ def main():
     corrupt("flip is_valid of the last event", flip_valid, {"valid"})
     corrupt("append a printed line to the last event", extra_print, {"printed"})
     corrupt("append a character to the first cell of the first delivered line", final_line_cell, {"final_lines"})
+    # ---- the joint group machine (GroupRun.tla): recorded joint runs with cross-path signals
+    from checks import jointrun
+    outs = [jointrun._work((11, i)) for i in range(60)]
+    jc = [o["case"] for o in outs if "case" in o and len(o["case"]["events"]) >= 3]
+    _, jv = jointrun.validate(jc, dev=("AboveCellsAsText", "LtIsLe"))
+    jok = [c for c in jc if jv[c["tid"]]["verdict"] == "ok"]
+    results["joint_runs_accepted_before_corruption"] = len(jok)
+    def jcorrupt(name, fn, expect):
+        muts = []
+        for t in jok[:25]:
+            c = copy.deepcopy(t)
+            if fn(c):
+                c["tid"] = t["tid"] + 200000
+                muts.append(c)
+        if not muts:
+            results["corruptions"].append({"corruption": name, "applied": 0}); return
+        _, vv = jointrun.validate(muts, dev=("AboveCellsAsText", "LtIsLe"))
+        verdicts = [vv[m["tid"]]["verdict"] for m in muts]
+        results["corruptions"].append({"corruption": name, "applied": len(muts), "rejected": sum(1 for x in verdicts if x != "ok"),
+                                       "named_field_as_expected": sum(1 for x in verdicts if x.split(":")[0] in expect), "verdicts": sorted(set(verdicts))})
+    def j_member(c):
+        if len(c["members"]) < 2: return False
+        e = c["events"][0]; e["m"] = 2 if e["m"] == 1 else 1; return True
+    def j_final_valid(c):
+        c["final"]["members"][0]["valid"] = not c["final"]["members"][0]["valid"]; return True
+    def j_all_valid(c):
+        c["final"]["all_valid"] = not c["final"]["all_valid"]; return True
+    def j_drop_last(c):
+        del c["events"][-1]; return True
+    def j_yield(c):
+        if c["kind"] != "byline" or not c["final"]["checkYield"]: return False
+        c["final"]["yielded"] = c["final"]["yielded"] + [len(c["file"]) + 3]; return True
+    def j_event_valid(c):
+        c["events"][-1]["valid"] = not c["events"][-1]["valid"]; return True
+    jcorrupt("joint run: give the first _consider_line call to another member", j_member, {"schedule_member", "k"})
+    jcorrupt("joint run: flip the final verdict of the first member", j_final_valid, {"final_valid"})
+    jcorrupt("joint run: flip the run manifest's all_valid", j_all_valid, {"all_valid"})
+    jcorrupt("joint run: drop the last _consider_line call", j_drop_last, {"missing_event", "final_valid", "final_stopped", "final_scan_count", "final_match_count", "final_vars", "k", "schedule_member"})
+    jcorrupt("joint run: one more record handed to the caller", j_yield, {"yielded"})
+    jcorrupt("joint run: flip is_valid of the last call", j_event_valid, {"valid"})
     os.makedirs(os.path.join(common.VERIF, "selftest"), exist_ok=True)
     with open(os.path.join(common.VERIF, "selftest", "RESULT.json"), "w") as f:
         json.dump(results, f, indent=1)
